@@ -132,7 +132,9 @@ Definition C10_stream_statement : Prop := forall i S mp mt ops,
 Theorem C10_stream : C10_stream_statement.
 Proof.
   intros i S mp mt ops Hi Hops HW.
-  exact (stream_inv i S Hi ops (init mp mt) None (init_ok i S mp mt) Hops HW).
+  apply (trace_okR_ok S False _ None []).
+  apply (stream_invR i S Hi False ops (init mp mt) None []); try assumption.
+  - apply init_ok. - constructor. - intros [].
 Qed.
 Print Assumptions C10_stream.
 
@@ -142,7 +144,7 @@ Theorem C10_stream_short : forall i S mp mt ops,
   trace_ok S None (outs (init mp mt) ops).
 Proof.
   intros i S mp mt ops Hi HS Hops. apply (C10_stream i S mp mt ops); try assumption.
-  exact (small_W_run i S Hi ops HS (init mp mt) None (init_ok i S mp mt) Hops).
+  apply (small_W_run i S Hi False ops HS (init mp mt) None []); [apply init_ok|exact Hops|intros []].
 Qed.
 Print Assumptions C10_stream_short.
 
@@ -194,8 +196,91 @@ Proof.
     constructor; [apply (T 1990); vm_compute; reflexivity|].
     constructor; [exact I|constructor]. }
   split; [exact Hi|]. split; [exact Hops|]. split.
-  - apply (small_W_run ex_i ex_S Hi ex_ops) with (pos := None); [vm_compute; reflexivity|apply init_ok|exact Hops].
+  - apply (small_W_run ex_i ex_S Hi False ex_ops) with (pos := None) (R := []); [vm_compute; reflexivity|apply init_ok|exact Hops|intros []].
   - vm_compute. reflexivity.
+Qed.
+
+
+(* ---- what was received is neither skipped nor lost --------------------------------------- *)
+(* R threads, through the run, the (offset, length) of every segment handed to the stream that
+   is live at that step (recv_in: the ranges of the live stream, none if a new stream starts,
+   plus the arriving segment; recv_out: forgotten when the stream completes).
+
+   trace_okR S F pos R l strengthens trace_ok: every element satisfies chunkR = chunk + extra:
+     (1) an element with Skip = s delivered at position a: no byte of any range received so far
+         on this stream (the arriving segment included) lies in [a, a+s)  (gap_free);
+     (2) when a stream completes (ReassemblyComplete): every byte it received lies before the
+         final position - all of it was delivered or announced, nothing is dropped from the
+         buffer - or else the last element handed over carried End (FIN/RST; pages buffered
+         beyond it are released by closeConnection); with the sender discipline F "FIN/RST only
+         on data that ends at the end of S" the first alternative always holds;
+     (3) FlushAll leaves no stream behind and completes the one that was live; the flush loops
+         terminate within their fuel (no panic). *)
+Theorem C10_skip_covers_nothing_received : forall i S mp mt ops,
+  0 <= i < 4294967296 -> Forall (op_ok i S) ops -> W_run (init mp mt) ops ->
+  trace_okR S False None [] (outs (init mp mt) ops).
+Proof.
+  intros i S mp mt ops Hi Hops HW.
+  apply (stream_invR i S Hi False ops (init mp mt) None []); try assumption.
+  - apply init_ok. - constructor. - intros [].
+Qed.
+Print Assumptions C10_skip_covers_nothing_received.
+
+(* what clause (1) says for one element *)
+Theorem C10_skip_meaning : forall S F R a r p' o n x,
+  chunkR S F R (Some a) r p' -> In (o, n) R -> o <= x < o + n -> ~ (a <= x < a + r_skip r).
+Proof. intros S F R a r p' o n x [_ [H _]] Hin Hx. exact (H a eq_refl o n x Hin Hx). Qed.
+
+Theorem C10_flushall_delivers_all : forall i S mp mt ops,
+  0 <= i < 4294967296 -> Forall (op_ok i S) ops -> Forall (op_fin_ok S) ops -> W_run (init mp mt) ops ->
+  trace_okR S True None [] (outs (init mp mt) ops).
+Proof.
+  intros i S mp mt ops Hi Hops Hfin HW.
+  apply (stream_invR i S Hi True ops (init mp mt) None []); try assumption.
+  - apply init_ok. - constructor. - intros _; exact Hfin.
+Qed.
+Print Assumptions C10_flushall_delivers_all.
+
+(* what clauses (2),(3) say for one step of such a run *)
+Theorem C10_complete_meaning : forall S pos R st o ou t,
+  trace_okR S True pos R ((st, o, ou) :: t) ->
+  o_panic ou = false /\
+  (o = FlushAll -> s_conn (fst (step st o)) = None /\ (s_conn st <> None -> o_done ou = true)) /\
+  exists pos', chunksR S True (recv_in st R o) pos (concat (o_calls ou)) pos' /\
+    (o_done ou = true -> forall ro rn x, In (ro, rn) (recv_in st R o) -> ro <= x < ro + rn ->
+                         exists a', pos' = Some a' /\ x < a').
+Proof.
+  intros S pos R st o ou t H. cbn [trace_okR] in H. destruct H as (H1 & _ & H3 & pos' & Hc & Hd & _).
+  split; [exact H1|]. split; [exact H3|]. exists pos'. split; [exact Hc|].
+  intros D. destruct (Hd D) as [_ Hl]. exact (Hl I).
+Qed.
+
+(* non-vacuity: SYN, a segment 10 bytes ahead, FlushAll: the flush announces Skip = 10 although
+   ranges were received ((0,0) and (10,5): none meets [0,10)), delivers the 5 bytes and completes
+   the stream; the hypotheses of both theorems hold *)
+Definition ex_ops2 : list op :=
+  [Segment ex_i true false false [] 1 0;
+   Segment (sq ex_i 10) false false false (sub ex_S 10 5) 2 10;
+   FlushAll].
+
+Example C10_recv_nonvacuous :
+  Forall (op_ok ex_i ex_S) ex_ops2 /\ Forall (op_fin_ok ex_S) ex_ops2 /\ W_run (init 0 0) ex_ops2 /\
+  map (fun x => (map (map (fun r => (r_skip r, lenZ (r_bytes r)))) (o_calls (snd x)), o_done (snd x)))
+      (outs (init 0 0) ex_ops2)
+  = [([[(0, 0)]], false); ([], false); ([[(10, 5)]], true)] /\
+  Forall (op_fin_ok ex_S) ex_ops.
+Proof.
+  assert (Hi : 0 <= ex_i < 4294967296) by (unfold ex_i; lia).
+  assert (Hops : Forall (op_ok ex_i ex_S) ex_ops2).
+  { unfold ex_ops2. constructor; [cbn [op_ok]; vm_compute; repeat split; congruence|].
+    constructor; [cbn [op_ok]; repeat split; vm_compute; congruence|]. constructor; [exact I|constructor]. }
+  assert (Hfin : Forall (op_fin_ok ex_S) ex_ops2).
+  { unfold ex_ops2. repeat constructor; cbn [op_fin_ok]; intros; discriminate. }
+  split; [exact Hops|]. split; [exact Hfin|]. split; [|split].
+  - apply (small_W_run ex_i ex_S Hi True ex_ops2) with (pos := None) (R := []);
+      [vm_compute; reflexivity|apply init_ok|exact Hops|intros _; exact Hfin].
+  - vm_compute. reflexivity.
+  - unfold ex_ops. repeat constructor; cbn [op_fin_ok]; intros; try discriminate; try (vm_compute; reflexivity).
 Qed.
 
 (* ---- outside the window ---------------------------------------------------------------- *)
